@@ -6,6 +6,8 @@
 #include <ascon/xof.h>
 void cpp_hash(int a, const unsigned char *m, size_t n, unsigned char *out);
 void cpp_xof(int a, size_t declared, const unsigned char *m, size_t n, unsigned char *out, size_t outlen);
+void cpp_hash_copy(int a, const unsigned char *m, size_t n, unsigned char *out, int mode);
+void cpp_xof_copy(int a, const unsigned char *m, size_t n, unsigned char *out, size_t outlen, int mode);
 void cpp_cxof(int a, size_t declared, const char *fn, const unsigned char *c, size_t cl, int form, const unsigned char *m, size_t n, unsigned char *out, size_t outlen);
 
 static int A, pat, tier;
@@ -72,6 +74,9 @@ static void plain(void)
         /* the C++ classes: hash / hasha, xof / xofa and the fixed-length templates for 32 and 64 bytes */
         memset(o, 0xAA, 32); cpp_xof(A, 0, msg, inlen, o, 32); cmp(nm("xof:cpp:xof"), o, e, 32, "inlen=%zu", inlen, 0, 0, 0);
         memset(o, 0xAA, 32); ref_hash(A, msg, inlen, e); cpp_hash(A, msg, inlen, o); cmp(nm("hash:cpp:hash"), o, e, 32, "inlen=%zu", inlen, 0, 0, 0);
+        if (inlen <= 64) for (int cm = 0; cm < 3; cm++) {   /* C++ objects copy-constructed, assigned over a used object, assigned to themselves in the middle of the message */
+            memset(o, 0xAA, 32); cpp_hash_copy(A, msg, inlen, o, cm); cmp(nm("hash:cpp-copy:hash"), o, e, 32, "inlen=%zu way=%zu", inlen, (size_t)cm, 0, 0);
+            uint8_t ex[32]; ref_xof(A, msg, inlen, ex, 32); memset(o, 0xAA, 32); cpp_xof_copy(A, msg, inlen, o, 32, cm); cmp(nm("xof:cpp-copy:xof"), o, ex, 32, "inlen=%zu way=%zu", inlen, (size_t)cm, 0, 0); }
         memset(o, 0xAA, 32); cpp_xof(A, 32, msg, inlen, o, 32); cmp(nm("xof:cpp-fixed-32:xof"), o, e, 32, "inlen=%zu", inlen, 0, 0, 0);
         if (inlen < 200) { uint8_t e64[64], o64[64]; ref_xof_fixed(A, 64, msg, inlen, e64, 64); cpp_xof(A, 64, msg, inlen, o64, 64); hx_stat("evaluations", 1); if (memcmp(o64, e64, 64)) hx_fail(nm("xof:cpp-fixed-64:xof"), "differs from reference: inlen=%zu pat=%d", inlen, pat); }
         hx_free(o);
